@@ -183,6 +183,16 @@ func genIO(g *core.Gen) {
 
 func genSched(g *core.Gen) {
 	r := g.R
+	// heterogeneous sessions from ONE secret: every network and both roles back to back (a key
+	// cache keyed too coarsely would hand out the first session's keys)
+	for i := 0; i < g.N(2, 30); i++ {
+		sec := hx(r.Bytes(32))
+		for _, m := range magics {
+			for ini := 0; ini < 2; ini++ {
+				kase(g, "sched-same-secret", true, fmt.Sprintf("C19 sched %s %s %d", sec, m, ini))
+			}
+		}
+	}
 	for i := 0; i < g.N(60, 2000); i++ {
 		kase(g, "sched", true, fmt.Sprintf("C19 sched %s %s %d", hx(r.Bytes(32)), pickMagic(r), r.Intn(2)))
 	}
@@ -193,7 +203,7 @@ func genSched(g *core.Gen) {
 type pkt struct {
 	ln, seed, aad int
 	ign           bool
-	raw           int // >= 2: raw header byte (pk op only); ign must equal raw >= 128
+	raw           int // >= 256: raw header byte raw-256 (pk op only); ign must equal raw-256 >= 128
 }
 
 func (p pkt) String() string {
@@ -201,7 +211,7 @@ func (p pkt) String() string {
 	if p.ign {
 		ig = 1
 	}
-	if p.raw >= 2 {
+	if p.raw >= 256 {
 		ig = p.raw
 	}
 	return fmt.Sprintf("%d:%d:%d:%d", p.ln, p.seed, ig, p.aad)
@@ -352,11 +362,25 @@ func genPk(g *core.Gen) {
 		ps := randPkts(r, 1+r.Intn(5), 0, r.Chance(1, 3))
 		for j := range ps {
 			if r.Chance(1, 2) {
-				ps[j].raw = int(r.Pick(2, 3, 64, 127, 129, 130, 192, 255, int64(2+r.Intn(254))))
-				ps[j].ign = ps[j].raw >= 128
+				ps[j].raw = 256 + int(r.Pick(0, 1, 2, 3, 64, 127, 128, 129, 130, 192, 255, int64(r.Intn(256))))
+				ps[j].ign = ps[j].raw-256 >= 128
 			}
 		}
 		kase(g, "pk-raw-header", true, pkLine(r.Bytes(32), pickMagic(r), r.Intn(2), ps, "-", recvPlan(ps, r.Intn(2))))
+	}
+	// every value of the one-byte header (only bit 7 matters), at the first, a middle and the last
+	// position of a short stream
+	{
+		sec, magic, ini := r.Bytes(32), pickMagic(r), r.Intn(2)
+		for h := 0; h < 256; h++ {
+			ps := randPkts(r, 3, 0, false)
+			for j := range ps {
+				ps[j].ln = r.Intn(6)
+			}
+			k := h % 3
+			ps[k].raw, ps[k].ign = 256+h, h >= 128
+			kase(g, "pk-header-sweep", true, pkLine(sec, magic, ini, ps, "-", recvPlan(ps, 0)))
+		}
 	}
 	// wrong AAD on the first packet
 	for i := 0; i < g.N(60, 1000); i++ {
@@ -584,6 +608,50 @@ func genEp(g *core.Gen) {
 		kase(g, "ep-admission-short", true, c.flag("A"+fmt.Sprint(2+r.Intn(3))).line(take(s.wa, 20+r.Intn(40)), nil))
 		c.gLen = 4096
 		kase(g, "ep-admission-garbage-too-large", true, c.flag("A4").line(s.wa, nil))
+	}
+	// a fragmenting network: the connection delivers 1, 2 or 7 bytes per Read during the whole session
+	for i := 0; i < g.N(2, 30); i++ {
+		s := mk(int(r.Pick(-1, 0, 4095)), int(r.Pick(-1, 0, 4095)), 1+r.Intn(3), 0)
+		actsA := append(sendActs(s.pa), recvActs(s.pb, 1)...)
+		actsB := append(sendActs(s.pb), recvActs(s.pa, 1)...)
+		for _, c := range []string{"R1", "R2", "R7"} {
+			kase(g, "ep-fragmented-reads", true, s.a.flag(c).line(s.wb, actsA))
+			kase(g, "ep-fragmented-reads", true, s.b.flag(c).line(s.wa, actsB))
+		}
+	}
+	// rare shapes of the garbage: it contains false starts of the peer's own terminator (its first
+	// 15 bytes, repeated; the terminator shifted by one) or even the complete terminator. The
+	// garbage does not influence the keys, so the terminator learnt from a first exchange is still
+	// the peer's terminator when the exchange is repeated with the crafted garbage.
+	for i := 0; i < g.N(3, 40); i++ {
+		gB := 40 + r.Intn(60)
+		s0 := mk(-1, gB, 1+r.Intn(2), 0)
+		if len(s0.wb) < 64+gB+16 {
+			continue
+		}
+		term := s0.wb[64+gB : 64+gB+16]
+		for v := 0; v < 3; v++ {
+			garb := r.Bytes(gB)
+			cls := "ep-garbage-false-starts"
+			switch v {
+			case 0: // first 15 bytes of the terminator, back to back, up to the very end of the garbage
+				for k := 0; k+15 <= gB; k += 15 {
+					copy(garb[k:], term[:15])
+				}
+				copy(garb[gB-15:], term[:15])
+			case 1: // the terminator shifted by one byte at the end of the garbage (overlapping match)
+				copy(garb[gB-17:], term[1:])
+				garb[gB-1] = term[0]
+			case 2: // the complete terminator inside the garbage: the scan legitimately stops there
+				copy(garb[r.Intn(gB-16):], term)
+				cls = "ep-garbage-contains-terminator"
+			}
+			s := s0
+			s.b = s0.b.flag("G" + hx(garb))
+			s.wa, s.wb = loopback(s.a, s.b, s.pa, s.pb)
+			kase(g, cls, true, s.a.line(s.wb, append(sendActs(s.pa), recvActs(s.pb, 0)...)))
+			kase(g, cls, true, s.b.line(s.wa, append(sendActs(s.pb), recvActs(s.pa, 0)...)))
+		}
 	}
 	// long sessions: >= 700 packets each way (3 rekeys)
 	for i := 0; i < g.N(1, 8); i++ {
